@@ -454,7 +454,9 @@ def parts(tier):
                         rule="all ordered pairs of tiers on 4 cells where B's entries (all, or only the first) carry the EMPTY label: "
                              "'overlaps something in B' is a matter of time, not of label text", bounds={"cells": 4}))
 
-    META = ("50%", "%s", "%(x)s", "100%% sure", "{}", "{0}", "{x", "\\1", "$a", "a-b", "a,b", "(a)", "")
+    # (the last four: zero-width characters - ZERO WIDTH SPACE / NON-JOINER / JOINER, WORD JOINER - at the edge of a label or as the whole label; they are
+    # not white space: strip() keeps them, so does every copy the set operations make)
+    META = ("50%", "%s", "%(x)s", "100%% sure", "{}", "{0}", "{x", "\\1", "$a", "a-b", "a,b", "(a)", "", "\u200bx", "x\u200d", "\u2060", "\u200cy\u200c")
 
     def gen_meta():
         geos = [(((0.0, 2.0),), ((1.0, 3.0),)), (((0.0, 1.0), (2.0, 3.0)), ((0.5, 2.5),)), (((0.0, 3.0),), ((0.5, 1.0), (2.0, 2.5))), (((1.0, 2.0),), ((1.0, 2.0),))]
